@@ -331,30 +331,40 @@ func Mutate(r *vh.Rand, f *ast.File, k int) string {
 		if len(cand) == 0 {
 			break
 		}
-		s := cand[r.Intn(len(cand))]
+		m := r.Intn(7)
+		// pick a slot that fits the mutation
+		var fit []reflect.Value
+		for _, c := range cand {
+			switch c.Interface().(type) {
+			case *ast.BinaryExpr:
+				if m <= 1 {
+					fit = append(fit, c)
+				}
+			case *ast.ParenExpr:
+				if m == 2 {
+					fit = append(fit, c)
+				}
+			}
+		}
+		if m <= 2 && len(fit) == 0 {
+			m = 3 + r.Intn(4)
+		}
+		if m > 2 {
+			fit = cand
+		}
+		s := fit[r.Intn(len(fit))]
 		e := s.Interface().(ast.Expr)
-		switch m := r.Intn(7); {
+		switch {
 		case m == 0:
-			if b, ok := e.(*ast.BinaryExpr); ok {
-				b.Op = BinOps[r.Intn(len(BinOps))]
-				desc = append(desc, "op")
-				continue
-			}
-			fallthrough
+			e.(*ast.BinaryExpr).Op = BinOps[r.Intn(len(BinOps))]
+			desc = append(desc, "op")
 		case m == 1:
-			if b, ok := e.(*ast.BinaryExpr); ok {
-				b.X, b.Y = b.Y, b.X
-				desc = append(desc, "swap")
-				continue
-			}
-			fallthrough
+			b := e.(*ast.BinaryExpr)
+			b.X, b.Y = b.Y, b.X
+			desc = append(desc, "swap")
 		case m == 2:
-			if p, ok := e.(*ast.ParenExpr); ok {
-				s.Set(reflect.ValueOf(p.X))
-				desc = append(desc, "unparen")
-				continue
-			}
-			fallthrough
+			s.Set(reflect.ValueOf(e.(*ast.ParenExpr).X))
+			desc = append(desc, "unparen")
 		case m == 3:
 			s.Set(reflect.ValueOf(ast.Expr(&ast.ParenExpr{X: e})))
 			desc = append(desc, "paren")
